@@ -50,6 +50,21 @@ def draw_metrics(rng, n):
             m = [int(Gm[0, 0]), int(Gm[1, 1]), int(Gm[2, 2]), int(Gm[1, 2]), int(Gm[0, 2]), int(Gm[0, 1])]
         if gl.spd(m) and 200 * gl.det6(m) >= m[0] * m[1] * m[2]:       # keep acos arguments away from +-1
             out.add(tuple(m))
+    # cells that LOOK reduced: a <= b <= c and no axis gets shorter when another axis is added or subtracted (the pairwise Buerger
+    # conditions), but all angles obtuse and the body diagonal a+b+c shorter than c - the one condition a pairwise test forgets
+    look = []
+    for a in (4, 5, 6, 7):
+        for b in range(a, 10):
+            for c in range(b, 12):
+                for d in range(-(b // 2), 0):
+                    for e in range(-(a // 2), 0):
+                        for f in range(-(a // 2), 0):
+                            m = [a, b, c, d, e, f]
+                            if a + b + c + 2 * (d + e + f) < c and gl.spd(m) and 200 * gl.det6(m) >= a * b * c:
+                                look.append(m)
+    rng.shuffle(look)
+    for m in look[: max(12, n // 8)]:
+        out.add(tuple(m))
     return [list(m) for m in sorted(out)]
 
 
